@@ -807,7 +807,12 @@ class RefResolver(object):
                 and _ARRAY_INDEX.match(part)
             ):
                 # Array indexes should be turned into integers
-                part = int(part)
+                try:
+                    part = int(part)
+                except ValueError:
+                    # more digits than int() is willing to convert:
+                    # certainly not an index that exists
+                    pass
             try:
                 document = document[part]
             except (TypeError, LookupError):
